@@ -24,6 +24,7 @@ baseline (fail closed; never guesses).
 """
 import ast
 from common import *
+import failclosed
 
 SRC = 'oslo_utils/timeutils.py'
 
@@ -421,7 +422,20 @@ METHODS = [
     ('__init__', 'gen_init', [('duration', 'optint', 'None', 'None')], 'none', []),
 ]
 
+# the two classes and every method read below must be THE objects bound to their names at run time (no second definition, no
+# `StopWatch.stop = ...`, no subclass bound to the name), the class constants and the clock `now` unmodified (tools/gen/failclosed.py)
+FAILCLOSED = {'generate': [{'src': SRC, 'mod': 'oslo_utils.timeutils',
+    'classes': {'StopWatch': {'bases': []}, 'Split': {'bases': []}},
+    'functions': dict([('Split.__init__', {'defaults': {}}), ('Split.elapsed', {'decorators': ['property'], 'defaults': {}}),
+                       ('Split.length', {'decorators': ['property'], 'defaults': {}}),
+                       ('StopWatch._delta_seconds', {'decorators': ['staticmethod'], 'defaults': {}})] +
+                      [('StopWatch.' + py, {'decorators': decos, 'defaults': {p[0]: p[2] for p in params if p[1] is not None}})
+                       for py, _, params, _, decos in METHODS]),
+    'constants': ['now', 'StopWatch._STARTED', 'StopWatch._STOPPED'],
+    'imports': {'time': 'time'}}]}
+
 def generate():
+    failclosed.check_all(FAILCLOSED['generate'])
     tree = repo_ast(SRC)
     out = [HEADER % (SRC, 'tools/gen/gen_C13.py')]
     out.append('From Coq Require Import ZArith List.\nRequire Import OV.Base.Bytes OV.Base.Py OV.Base.C13_Types.\nImport ListNotations.\nOpen Scope Z_scope.')
